@@ -27,6 +27,15 @@ Section Upd.
     revert n m; induction l as [|h t IH]; intros [|n] [|m] H; simpl; auto; try lia.
   Qed.
 
+  Lemma skipn_skipn (x y : nat) (l : list A) : skipn x (skipn y l) = skipn (x + y) l.
+  Proof.
+    revert l; induction y as [|y IH]; intros l.
+    - rewrite Nat.add_0_r. reflexivity.
+    - destruct l as [|a l].
+      + rewrite !skipn_nil. reflexivity.
+      + rewrite Nat.add_succ_r. simpl. apply IH.
+  Qed.
+
   (* last n elements of a list *)
   Definition lastn (n : nat) (l : list A) : list A := skipn (length l - n) l.
 
